@@ -25,9 +25,8 @@ Definition the_op (s : spec) (i : nat) : op := nth i s [].
 
 Definition model_obs (x : input) : obs :=
   let '(k, s, i, st) := x in to_obs (call k s (the_op s i) st).
-Definition guards (x : input) : list bool :=
-  let '(k, s, i, st) := x in
-  [guard_F06a k st; guard_F06b k (the_op s i) st; guard_F06c k (the_op s i) st; guard_F06d s].
+(* no guard conjunct is left: F06a-d are fixed and C06_full holds *)
+Definition guards (x : input) : list bool := [].
 Definition run (cases : list (input * obs)) : list N := report obs_eqb model_obs guards cases.
 
 (* function-level relation: the three real _get_primary_response copies, as index of the chosen response *)
